@@ -211,3 +211,47 @@ Fixpoint sconcat (l : list string) : string :=
   match l with [] => "" | x :: r => x +++ sconcat r end.
 
 Definition inlines_plain_text (l : list inline) : string := sconcat (map plain_text l).
+
+(* ---------- induction principles for the nested types ---------------------------------- *)
+
+Section InlineInd.
+  Variable P : inline -> Prop.
+  Hypothesis HStr : forall s, P (Str s).
+  Hypothesis HCode : forall s, P (Code s).
+  Hypothesis HMath : forall s, P (Math s).
+  Hypothesis HEmph : forall l, Forall P l -> P (Emph l).
+  Hypothesis HStrong : forall l, Forall P l -> P (Strong l).
+  Hypothesis HStrike : forall l, Forall P l -> P (Strike l).
+  Hypothesis HLink : forall u t lt l, Forall P l -> P (Link u t lt l).
+  Hypothesis HImage : forall u t l, Forall P l -> P (Image u t l).
+
+  Fixpoint inline_ind' (i : inline) : P i :=
+    let fix go (l : list inline) : Forall P l :=
+      match l with
+      | [] => Forall_nil P
+      | x :: r => Forall_cons x (inline_ind' x) (go r)
+      end in
+    match i with
+    | Str s => HStr s
+    | Code s => HCode s
+    | Math s => HMath s
+    | Emph l => HEmph l (go l)
+    | Strong l => HStrong l (go l)
+    | Strike l => HStrike l (go l)
+    | Link u t lt l => HLink u t lt l (go l)
+    | Image u t l => HImage u t l (go l)
+    end.
+End InlineInd.
+
+Section TreeInd.
+  Variable P : tree -> Prop.
+  Hypothesis HT : forall i n c, Forall P c -> P (T i n c).
+
+  Fixpoint tree_ind' (t : tree) : P t :=
+    let fix go (l : list tree) : Forall P l :=
+      match l with
+      | [] => Forall_nil P
+      | x :: r => Forall_cons x (tree_ind' x) (go r)
+      end in
+    match t with T i n c => HT i n c (go c) end.
+End TreeInd.
